@@ -47,7 +47,8 @@ class ColumnLineageMixin:
                     ]
                     if len(path) > 1:
                         columns.add(tuple(path))
-                else:
+                elif len(path) > 1:
+                    # a path needs at least one hop: a column nothing feeds and that feeds nothing is not lineage
                     columns.add(tuple(path))
         return columns
 
